@@ -112,6 +112,11 @@ EXTRA = {
                         ['<e>2000-01-01Z 2000-01-02Z</e>', '<e>2000-01-01Z   2000-01-02Z</e>', '<e>2000-01-01Z</e>', '<e/>']),
     'string-fixed': ('<xs:schema {XS}><xs:element name="r"><xs:complexType><xs:sequence><xs:element name="k" type="xs:token" fixed="article"/><xs:element name="u" type="xs:anyURI" fixed="urn:x" minOccurs="0"/></xs:sequence></xs:complexType></xs:element></xs:schema>',
                      ['<r><k>article</k></r>', '<r><k>service</k></r>', '<r><k> article </k></r>', '<r><k/></r>', '<r><k>article</k><u>urn:y</u></r>', '<r><k>articles</k><u>urn:x</u></r>']),
+    # a local declaration that shares its name with a global one of another type: the children are governed by the local one, however the document is read (a lazy resource
+    # looks the declaration of each streamed child up by its path)
+    'local-vs-global-name': ('<xs:schema {XS}><xs:element name="item" type="xs:int"/><xs:element name="label" type="xs:string"/>'
+                             '<xs:element name="catalog"><xs:complexType><xs:sequence><xs:element name="item" type="xs:string" maxOccurs="unbounded"/><xs:element name="label" type="xs:int" minOccurs="0"/></xs:sequence></xs:complexType></xs:element></xs:schema>',
+                             ['<catalog><item>abc</item></catalog>', '<catalog><item>5</item><label>7</label></catalog>', '<catalog><item>5</item><label>seven</label></catalog>', '<catalog><item>a</item><item>b</item><label>x</label></catalog>']),
     'simple-fixed': ('<xs:schema {XS}><xs:element name="f" type="xs:decimal" fixed="1.0"/></xs:schema>', ['<f>1</f>', '<f/>', '<f> 1.00 </f>', '<f>2</f>', '<f> </f>']),
 }
 XS = 'xmlns:xs="http://www.w3.org/2001/XMLSchema"'
@@ -131,6 +136,8 @@ def eval_extra(args):
         try: s.decode(doc); v['decode_strict'] = True
         except XMLSchemaValidationError: v['decode_strict'] = False
         v['package_is_valid'] = xmlschema.is_valid(doc, s)
+        for thin in (True, False): v[f'lazy_resource_thin_{thin}'] = s.is_valid(xmlschema.XMLResource(doc, lazy=True, thin_lazy=thin))
+        v['package_is_valid_lazy'] = xmlschema.is_valid(doc, s, lazy=True)
     except Exception as e: return dict(name=name, ver=ver, doc=doc, verdicts=v, problem=f'{type(e).__name__}: {str(e)[:80]}')
     return dict(name=name, ver=ver, doc=doc, verdicts=v, problem='entry points disagree on the verdict') if len(set(v.values())) > 1 else None
 
